@@ -36,11 +36,10 @@ PROPS = {
         'classes': {1: 'handler-re-executed-for-duplicate', 2: 'duplicate-not-answered-with-first-reply', 3: 'not-fresh-after-lifetime'},
         'trusted': ['hook udp/client/export_verif.go (response-cache deadline shifting, own message-ID view)',
                     'in-memory udp/client.Session + barrier request used to wait for dispatch (harness/udpmem.go)'],
-        'assumptions': ['one handleReq execution is atomic per message ID (msgIDMutex); time is modelled as validity left per cache entry, shifted by the harness instead of waiting 247 s',
-                        'a sweep in flight touches the response cache only in its removal steps (one critical section of pkg/sync.Map each); they are forced at the yield points of pkg/cache / pkg/sync (build tag verif) and reported as "inner requests; Tick" (Dedup/Sweep.v: unobservable)'],
-        'level_text': 'Coq theorems (Properties/C05.v) over ALL event histories of the request-path model of udp/client.Conn: a cacheable request seen again within the lifetime never reaches the handler and is answered with the stored reply retargeted to the duplicate; after the lifetime it is fresh; for every request method code 0.01-0.31 (FETCH/PATCH/iPATCH included; a GET..DELETE gate refuted) and with any number of non-atomic housekeeping sweeps in flight (removal by compare-and-delete unobservable for every interleaving; removal by key refuted). Model tied to the real Conn by event-by-event correspondence over an in-memory session.',
+        'assumptions': ['one handleReq execution is atomic per message ID (msgIDMutex); time is modelled as validity left per cache entry, shifted by the harness instead of waiting 247 s'],
+        'level_text': 'Coq theorems (Properties/C05.v) over ALL event histories of the request-path model of udp/client.Conn: a cacheable request seen again within the lifetime never reaches the handler and is answered with the stored reply retargeted to the duplicate; after the lifetime it is fresh. Model tied to the real Conn by event-by-event correspondence over an in-memory session.',
         'level_note': 'Trusted: Coq kernel + vm_compute, harness, verif hook; atomicity of one per-MID critical section rests on sync.Mutex; real 247 s waits replaced by deadline shifting.',
-        'explanation': 'Histories of CON/NON requests, duplicates, virtual ageing and ticks on a real udp/client.Conn (in-memory session); observed handler calls and emitted datagrams compared with the model step by step; the property predicate is evaluated on the observed history. Request methods beyond GET..DELETE (0.05-0.31) in histories, concurrent copies and witnesses; message IDs used again after the lifetime while a sweep stands between examining and removing the expired reply (yield points of the sweep), followed by copies of the new request.',
+        'explanation': 'Histories of CON/NON requests, duplicates, virtual ageing and ticks on a real udp/client.Conn (in-memory session); observed handler calls and emitted datagrams compared with the model step by step; the property predicate is evaluated on the observed history.',
     },
     'C06': {
         'run_vo': 'Retx/Run.vo', 'props_vo': 'Properties/C06.vo', 'level': 'proof', 'confirm': True,
